@@ -64,6 +64,7 @@ def pipeline_reset_check(ch: Checker, rule: str) -> None:
 def run(ch: Checker) -> None:
     prog = ch.prog
     ce = ConstEval(prog)
+    ch.rule('C02.12', 'writer/reader agreement on --disable-headers: HttpParser.build drops a header when `name.lower()` is in the list, so FlagParser.initialize stores the configured names lower-cased', 1)
     ch.rule('C02.1', 'at every site that queues a rebuilt request to the upstream, del_headers([proxy-authorization, proxy-connection]) ran on that parser on every path, '
                      'build() receives disable_headers=flags.disable_headers and not for_proxy', 2)
     ch.rule('C02.1b', 'a Via header naming the proxy (PROXY_AGENT_HEADER_VALUE) is added to the parser on every path to every forward site', 2)
@@ -292,7 +293,17 @@ def run(ch: Checker) -> None:
     pipeline_reset_check(ch, 'C02.6')
     chunk_decoder_checks(ch, 'C02.7', 'C02.7', 'C02.7')
     completion_typestate_check(ch, 'C02.8')
+    ch.import_rules('C01', {'C01.2': 'C02.13', 'C01.3': 'C02.14'}, 'the body reaches the origin byte-identical only if the connection buffer sends exactly what was queued, also on short writes')
     opaque_relay_check(ch, 'C02.9')
+    # C02.12 configured names are stored the way the filter looks them up
+    fi12 = prog.method('FlagParser', 'initialize')
+    comps12 = [c for c in ast.walk(fi12.node) if isinstance(c, (ast.ListComp, ast.GeneratorExp, ast.SetComp)) and 'disable_headers' in norm(c.generators[0].iter)]
+    ok12 = bool(comps12) and all(any(isinstance(x, ast.Call) and isinstance(x.func, ast.Attribute) and x.func.attr in ('lower', 'casefold') for x in ast.walk(c.elt)) for c in comps12)
+    reader12 = any('.lower() not in' in norm(g_) for c in ast.walk(b.node) if isinstance(c, (ast.DictComp, ast.ListComp)) for g0 in c.generators for g_ in g0.ifs) or \
+        any('.lower() not in' in norm(t_) or '.lower() in' in norm(t_) for t_ in ast.walk(b.node) if isinstance(t_, ast.Compare))
+    ch.check(ok12 or not reader12, 'C02.12', fi12, '--disable-headers names lower-cased', 'configured names are lower-cased, as the filter in build() expects',
+             'the names given to --disable-headers are stored as %s while HttpParser.build() looks up `name.lower()`: a name written with an upper-case letter never matches and the header is '
+             'forwarded to the origin' % ([norm(c.elt) for c in comps12] or 'nothing recognisable'))
     ch.import_rules('C14', {'C14.7': 'C02.10', 'C14.6': 'C02.11'}, 'the origin-form target and the Host the origin sees are those of the request only if the request target is split into authority and path at the right place')
 
 
